@@ -620,4 +620,35 @@ theorem build_congr (hn : g.n = g'.n) (h : ∀ m a, a ∈ g.anc m ↔ a ∈ g'.a
   rw [c1, c2, c3]
   simp only [hs.out, hP, hn]
 
+/-! ### A sub-list of a duplicate-free list is determined by its members -/
+
+theorem filter_mem_of_sublist : ∀ {l L : List Nat}, l.Sublist L → L.Nodup →
+    L.filter (fun x => decide (x ∈ l)) = l := by
+  intro l L h
+  induction h with
+  | slnil => intro _; rfl
+  | @cons l' L' a hsub ih =>
+    intro hnd
+    rw [List.nodup_cons] at hnd
+    have ha : a ∉ l' := fun hm => hnd.1 (hsub.subset hm)
+    rw [List.filter_cons_of_neg (by simpa using ha)]
+    exact ih hnd.2
+  | @cons_cons l' L' a hsub ih =>
+    intro hnd
+    rw [List.nodup_cons] at hnd
+    rw [List.filter_cons_of_pos (by simp)]
+    congr 1
+    rw [← ih hnd.2]
+    apply List.filter_congr
+    intro x hx
+    have hxa : x ≠ a := fun e => hnd.1 (e ▸ hx)
+    simp [hxa, ih hnd.2]
+
+theorem sublist_ext_of_nodup {l₁ l₂ L : List Nat} (h₁ : l₁.Sublist L) (h₂ : l₂.Sublist L)
+    (hnd : L.Nodup) (hm : ∀ x, x ∈ l₁ ↔ x ∈ l₂) : l₁ = l₂ := by
+  rw [← filter_mem_of_sublist h₁ hnd, ← filter_mem_of_sublist h₂ hnd]
+  apply List.filter_congr
+  intro x _
+  simp [hm x]
+
 end LeaspyVerif.Dag
